@@ -335,9 +335,13 @@ theorem threshold_correct (ts : Array Int) (ix : Array Bool) (st en : Array Int)
     ∃ out, jitthreshold ts ix st en = .ok out ∧ out.1.size = out.2.size ∧
       (∀ i, (hi : i < ts.size) → (ix[i]'(by omega) = true ↔ ClosedV out.1 out.2 (2 * ts[i]))) ∧
       ClosedIn st en hm out.1 out.2 := by
-  obtain ⟨out, hout⟩ := C15.threshold_safe ts ix st en hm hc hix hin
+  have hen : 0 < en.size := by
+    obtain ⟨j, hj, _⟩ := hin 0 hn
+    omega
+  obtain ⟨out, hout⟩ := C15.thresholdScan_safe ts ix st en hm hc hix hin
   obtain ⟨h1, h2⟩ := threshold_cover ts ix st en hs hix hn out hout
-  exact ⟨out, hout, h1, h2, threshold_inside ts ix st en hm hc hs hix hn hin out hout⟩
+  exact ⟨out, by rw [jitthreshold_eq_scan ts ix st en hen]; exact hout, h1, h2,
+    threshold_inside ts ix st en hm hc hs hix hn hin out hout⟩
 
 /-- **C07 for threshold, through the IntervalSet constructor** (soundness half): the support `x.threshold(..)` carries is
 the constructor applied to the kernel's arrays; whatever the constructor does to them (it drops the zero-length interval
